@@ -70,7 +70,7 @@ def expected_abuf(case, h, outs):
     for o in outs:
         for (row, lane), (op, w) in o['produced'].items():
             rows = max(rows, actrl_row(case, op[1], meta.n_lines)[0] + 1)
-    acc = np.zeros((rows, shape[1]), dtype=np.int64)     # may have more rows than the buffer the library allocated
+    acc = np.zeros((rows, max(shape[1], int(h.sim.sims))), dtype=np.int64)     # may have more rows / columns than the buffer the library allocated (1x1 when nothing accumulates)
     per_batch = []
     for o in outs:
         for (row, lane), (op, w) in o['produced'].items():
@@ -106,12 +106,12 @@ def execute(case):
         if case.get('actrl'):
             exp = expected_abuf(case, h, outs)
             for bno, (o, e) in enumerate(zip(outs, exp)):
-                if o['abuf'].ndim != 2 or o['abuf'].shape[1] != e.shape[1]:
+                if o['abuf'].ndim != 2 or (o['abuf'].shape[1] != e.shape[1] and (e != 0).any()):
                     res.violate('abuf-mismatch', f'{label} batch {bno}: abuf has shape {o["abuf"].shape}, expected one column per lane ({e.shape[1]})')
                     return res
                 got = np.zeros(e.shape, dtype=np.int64)
-                r0 = min(e.shape[0], o['abuf'].shape[0])
-                got[:r0] = o['abuf'][:r0].astype(np.int64)
+                r0, c0 = min(e.shape[0], o['abuf'].shape[0]), min(e.shape[1], o['abuf'].shape[1])
+                got[:r0, :c0] = o['abuf'][:r0, :c0].astype(np.int64)
                 if ((got - e) % (1 << 32)).any():      # abuf is a 32-bit integer buffer: sums are compared modulo 2**32
                     d = np.argwhere((got - e) % (1 << 32))[0]
                     res.violate('abuf-mismatch', f'{label} batch {bno}: abuf[{d[0]},{d[1]}] = {got[d[0], d[1]] if d[0] < o["abuf"].shape[0] else "(no such row: abuf has %d rows)" % o["abuf"].shape[0]}, '
